@@ -50,3 +50,7 @@ def run(ctx):
             fn(ctx)
         except Skip:
             pass
+
+    # ---- R07.8 to_wait() tickets: NextEnding resolves at once whenever nothing runs (effect table owned by C09)
+    ctx.rule("R07.8", "a to_wait() ticket is either resolved immediately (nothing running) or queued for the process end - never queued with nothing to end")
+    ctx.borrow("C09", ["R09.1"], "R07.8", "documented effect of every control in every state class", keys=["NextEnding"])
